@@ -700,6 +700,8 @@ class Interp:
 
     def getitem(self, obj, idx):
         if isinstance(idx, slice) or isinstance(idx, tuple) and idx and idx[0] == "__slice__":
+            if isinstance(obj, PObj) and obj.clsname() in self.ex.getitem_hooks:
+                return self.ex.getitem_hooks[obj.clsname()](self, obj, idx)
             return self.getslice(obj, idx)
         if isinstance(obj, (str, SStr)):
             if kind_of(idx) not in ("int", "bool"):
@@ -1560,9 +1562,11 @@ class Interp:
         spec = self.ex.loopspecs.get((key, ordinal))
         if spec is not None:
             if isinstance(it, SStr):
-                st = {"len": lambda: z3.Length(it.z), "get": lambda i: SStr(z3.SubString(it.z, i, 1)), "seq": it}
+                st = {"len": lambda: z3.Length(it.z), "get": lambda i: SStr(z3.SubString(it.z, i, 1)), "seq": it,
+                      "i": z3.IntVal(0)}
             elif isinstance(it, SList):
-                st = {"len": lambda: it.length, "get": lambda i: it.wrap(self, z3.Select(it.elem, i)), "seq": it}
+                st = {"len": lambda: it.length, "get": lambda i: it.wrap(self, z3.Select(it.elem, i)), "seq": it,
+                      "i": z3.IntVal(0)}
             elif hasattr(it, "iter_state"):
                 st = it.iter_state(self)
             elif isinstance(it, (list, tuple, str)):
